@@ -158,6 +158,40 @@ pub fn shard_e1(def: &E1Def, tier: &str, seed: u64, shard: u32, cases: u32, excl
             o.inconclusive = Some(format!("proptest aborted: {reason}"));
         }
     }
+    // threaded supplements (sampled schedules) for the transactional properties
+    if o.failure.is_none() && (def.id == "C07" || def.id == "C08") {
+        let n = if tier == "thorough" { cases / 40 + 10 } else { cases / 120 + 4 };
+        let tdir = root.join(format!("t{shard}"));
+        std::fs::create_dir_all(&root).ok();
+        for i in 0..n {
+            let s = seed ^ (u64::from(shard) << 20) ^ (u64::from(i) * 7919 + 13);
+            *o.stats.entry("threaded_histories".into()).or_insert(0) += 1;
+            if def.id == "C07" {
+                match crate::e3::threaded_c07(&tdir, s) {
+                    Ok((nt, h)) => {
+                        o.evaluations += 1;
+                        if nt {
+                            o.nt_hashes.push(case_hash(&h.to_string()));
+                        }
+                    }
+                    Err((msg, h)) => {
+                        o.failure = Some(FailureOut { case: serde_json::json!({"threaded_history": h}), msg, step: 0, original_msg: String::new() });
+                        break;
+                    }
+                }
+            } else {
+                match crate::e3::threaded_c08(&tdir, s) {
+                    Ok(_) => {
+                        o.evaluations += 1;
+                    }
+                    Err(msg) => {
+                        o.failure = Some(FailureOut { case: serde_json::json!({"threaded_counters_seed": s}), msg, step: 0, original_msg: String::new() });
+                        break;
+                    }
+                }
+            }
+        }
+    }
     let _ = std::fs::remove_dir_all(&root);
     o
 }
